@@ -40,27 +40,28 @@ class Check:
                     os.remove(os.path.join(REPLAYS, f))
 
     # -- violations ---------------------------------------------------------
-    def _match(self, key: str, signature: str, ast=None, jobs=None):
+    def _match(self, key: str, signature: str, ast=None, jobs=None, ctx=None):
         import findings as fmod
         for f in self.findings:
             m = f["match"]
             if "key" in m and m["key"] != key:
                 continue
-            if "signature" in m and not signature.startswith(m["signature"]):
+            if "signature" in m and not (signature == m["signature"] if m.get("exact") else
+                                         signature.startswith(m["signature"])):
                 continue
             if "predicate" in m:
                 if ast is None or not fmod.PREDICATES[m["predicate"]](ast):
                     continue
             if "rule" in m:
-                if ast is None or jobs is None or not fmod.RULES[m["rule"]](ast, jobs):
+                if ast is None or not fmod.RULES[m["rule"]](ast, jobs, ctx or {}):
                     continue
             return f
         return None
 
-    def violation(self, key: str, signature: str, detail: dict, ast=None, jobs=None) -> bool:
+    def violation(self, key: str, signature: str, detail: dict, ast=None, jobs=None, ctx=None) -> bool:
         """Report that the property fails on case `key` with failure `signature`.
         Returns True if it was an unlisted violation (counts against the exit status)."""
-        f = self._match(key, signature, ast, jobs)
+        f = self._match(key, signature, ast, jobs, ctx)
         if f is not None:
             if f["id"] not in self.known:
                 print("KNOWN-FINDING: property=%s %s [%s]" % (self.pid, f["what"], f["id"]))
